@@ -963,4 +963,40 @@ theorem init_plain_spec (p : Prims δ Du κ α ε χ η) (n : Option κ) (o : Ob
   by_cases hk : dhas o.kwargs "initdef" = true <;>
     ftsimp [hnone, forMapM, dofPairs, hev, superInit, kwSetdefaultInitdef, hk]
 
+/-- `__init__` with exactly one `t_STATE=value` keyword (and no other FSM-specific one): the instance gets ITS
+    OWN copy of the default durations with that entry replaced -- the class's dict is not touched --, the keyword
+    is consumed, everything else as in the plain case -/
+theorem init_one_duration_spec (p : Prims δ Du κ α ε χ η) (n : Option κ) (o : Obj δ Du κ α ε χ)
+    (dd : List (String × List (String × String))) (evs : List ε) (ts arg : String) (v : κ) (du : Du)
+    (rest : List (String × κ))
+    (hT : o.typeIsFSM = false)
+    (hdd : sortArgs p (refContains o) o.ctPrefixes [] (o.kwargs.map (·.1)) = .ok dd)
+    (ht : ddget dd "t_" = [(ts, arg)])
+    (hnone : ∀ k, k ≠ "t_" → ddget dd k = [])
+    (hts : dhas o.ctDefaultDuration ts = true)
+    (hpop : dpop o.kwargs arg = .ok (v, rest))
+    (hper : p.timePeriodKw v = .ok (some du))
+    (hev : p.eventTuple n = .ok evs) :
+    (Gen.TrFT.init p n o).2 = .next () ∧
+    (Gen.TrFT.init p n o).1.duration = DurRef.own (dset o.ctDefaultDuration ts (some du)) ∧
+    (Gen.TrFT.init p n o).1.ctDefaultDuration = o.ctDefaultDuration ∧
+    (Gen.TrFT.init p n o).1.kwargs = rest ∧
+    (Gen.TrFT.init p n o).1.calls = o.calls ++ [Call.superInit rest
+      (if dhas rest "initdef" then o.initdefDefault else some o.ctDefaultState)] := by
+  unfold Gen.TrFT.init
+  rw [seq_next (o' := o) (by simp [hT, Gen.TrFT.skip, Gen.TrFT.pure])]
+  rw [seq_next (o' := { o with tmpDD := [] }) (by rfl)]
+  have hl := sortArgs_spec p n o (o.kwargs.map (·.1)) []
+  rw [hdd] at hl
+  simp only at hl
+  rw [seq_loop_next (o' := { o with tmpDD := dd }) hl]
+  have h1 := hnone "cond_" (by decide)
+  have h2 := hnone "enter_" (by decide)
+  have h3 := hnone "exit_" (by decide)
+  have h4 := hnone "on_enter_" (by decide)
+  have h5 := hnone "on_exit_" (by decide)
+  by_cases hk : dhas rest "initdef" = true <;>
+    ftsimp [ht, h1, h2, h3, h4, h5, forMapM, dofPairs, hev, superInit, kwSetdefaultInitdef, hk, forEach, kwPop,
+      hpop, hper, durDict, durSet, hts]
+
 end Edzed.TrTie.FT
